@@ -32,7 +32,7 @@ REAL = ['py4hw.rtl_generation.VerilogGenerator and module-level caches', 'py4hw.
 STUB = ['stimulus']
 ASSUMPTIONS = ['"identical text up to the order of declarations and the instance-unique module suffixes": canonicalisation sorts wire '
                'declaration lines per module and renames hex suffixes by first appearance']
-PROBES = ['forced_top_name', 'system_text_elaborated', 'system_as_top', 'second_clock_domain', 'second_instance_compared', 'extended_between_generations', 'repeat_after_sim', 'repeat_after_other_circuit', 'repeat_after_crash', 'child_via_two_ancestors', 'fresh_vs_same_generator', 'sim_after_generation']
+PROBES = ['refused_unsupported_block', 'clock_driver_assigned_after_generation', 'forced_top_name', 'system_text_elaborated', 'system_as_top', 'second_clock_domain', 'second_instance_compared', 'extended_between_generations', 'repeat_after_sim', 'repeat_after_other_circuit', 'repeat_after_crash', 'child_via_two_ancestors', 'fresh_vs_same_generator', 'sim_after_generation']
 
 INLINED = {'And2', 'Or2', 'Xor2', 'Nand2', 'Nor2', 'Not', 'Buf', 'Bit', 'Range', 'BitsLSBF', 'BitsMSBF', 'ConcatenateMSBF',
            'ConcatenateLSBF', 'Repeat', 'Constant', 'Mux2', 'Equal', 'EqualConstant', 'And', 'Or', 'Nor', 'Sub', 'Mul', 'SignedMul',
@@ -111,6 +111,9 @@ def gen(rs, tier, index):
     for c, d in enumerate(circuits):
         if d.get('late') is not None:
             ops.insert(hr.randint(1, len(ops)), {'op': 'extend', 'c': c})
+        elif hr.random() < 0.3 and any(n['grp'] for n in d['nodes']) and any(i['w'] == 1 for i in d['inputs']) and not d.get('group_driver'):
+            # a sub-block is moved to a gated clock domain (clockDriver assigned after construction) somewhere in the history
+            ops.insert(hr.randint(1, len(ops)), {'op': 'regate', 'c': c, 'pick': hr.randrange(1 << 20)})
     return {'circuits': circuits, 'ops': ops}
 
 
@@ -142,6 +145,18 @@ def run(scn, log, st):
         kind = op['op']
         for k in since:
             since[k].add((kind, op.get('c')))
+        if kind == 'gen_crash' and op['seed'] % 3 == 0:
+            # another kind of refused generation: a behavioural block the transpiler does not support (a conditional
+            # expression inside a call); the caller catches the refusal and goes on with other circuits
+            from ..catalog import _TernaryInCall
+            oh = py4hw.HWSystem()
+            try:
+                with quiet():
+                    py4hw.VerilogGenerator(_TernaryInCall(oh, 'blk', oh.wire('s'), oh.wire('r'))).getVerilogForHierarchy()
+            except Exception:
+                st.fault('gen_crash')
+                st.probe('refused_unsupported_block')
+            continue
         if kind == 'gen_crash':
             ob = other_circuit(op['seed'])
             victim = next((o for o in seams.walk(ob.dut) if o is not ob.dut and o.inPorts), None)
@@ -173,6 +188,23 @@ def run(scn, log, st):
                 since[('hier', op['c'])] = set()
             st.fault('late_add')
             st.probe('extended_between_generations')
+            continue
+        if kind == 'regate':
+            tops = sorted({n['grp'][0] for n in c['d']['nodes'] if n['grp']})
+            bits = [i['name'] for i in c['d']['inputs'] if i['w'] == 1]
+            if not tops or not bits or c.get('regated'):
+                continue
+            gname, en = tops[op['pick'] % len(tops)], bits[op['pick'] % len(bits)]
+            for sysm in (b, c['t']):
+                sysm.groups[(gname,)].clockDriver = py4hw.ClockDriver('gclk', base=sysm.hw.clockDriver, enable=sysm.wire(en))
+            with quiet():
+                c['bs'], c['ts'] = b.hw.getSimulator(), c['t'].hw.getSimulator()
+            c['regated'] = True
+            for k in [k for k in texts if k[1] == op['c']]:
+                del texts[k]
+                since.pop(k, None)
+            st.fault('regate')
+            st.probe('clock_driver_assigned_after_generation' if c['generated'] else 'clock_driver_assigned_late')
             continue
         if kind == 'sim':
             b.set_inputs(op['vec'])
@@ -252,6 +284,8 @@ def run(scn, log, st):
     # (catches generator state that survives from the first generation of a class / module to the next)
     for ci, c in enumerate(circ):
         d = c['d']
+        if c.get('regated'):
+            continue
         first = d['order'][:d['late']] if d.get('late') is not None else None
         fresh = netlist.Built(d).build(first)
         if c.get('extended'):
